@@ -10,10 +10,21 @@ def overlap(a, b):
     return max(0, min(a[1], b[1]) - max(a[0], b[0]) + 1)
 
 
-def sure_incompatible(read, iso, delta, max_intron_shift=60):
-    """read, iso: sorted exon/block lists (1-based closed).  Returns a witness string or None (= unsure)."""
+FAR_END = 300
+
+
+def sure_incompatible(read, iso, delta, max_intron_shift=60, far_ends=False):
+    """read, iso: sorted exon/block lists (1-based closed).  Returns a witness string or None (= unsure).
+    far_ends: also accept as witness a terminal read block that overlaps the terminal exon of the isoform on the same
+    side and runs >= FAR_END + delta bp beyond it (documented as major_exon_elongation, "exceeding" the minor
+    extension of 50 bp; used for class-F reads only)."""
     if not any(overlap(r, e) for r in read for e in iso):
         return "no-exon-overlap"
+    if far_ends:
+        if overlap(read[0], iso[0]) and read[0][0] <= iso[0][0] - FAR_END - delta:
+            return "read-start-far-beyond-isoform-start:%d" % (iso[0][0] - read[0][0])
+        if overlap(read[-1], iso[-1]) and read[-1][1] >= iso[-1][1] + FAR_END + delta:
+            return "read-end-far-beyond-isoform-end:%d" % (read[-1][1] - iso[-1][1])
     ri = introns(read)
     ii = introns(iso)
     M = max_intron_shift + 2 * delta + 10
